@@ -1031,20 +1031,26 @@ func (c *Client) RemoveAll(path string) error {
 			return err
 		}
 
+		// Like os.RemoveAll, remove everything that can be removed
+		// and report the first error that was met.
+		var firstErr error
 		for _, file := range files {
 			if file.IsDir() {
 				// Recursively delete subdirectories
 				err = c.RemoveAll(path + "/" + file.Name())
-				if err != nil {
-					return err
-				}
 			} else {
 				// Delete individual files
 				err = c.Remove(path + "/" + file.Name())
-				if err != nil {
-					return err
-				}
 			}
+			if err != nil && firstErr == nil {
+				firstErr = err
+			}
+		}
+		if firstErr != nil {
+			if err := c.Remove(path); err == nil {
+				return nil
+			}
+			return firstErr
 		}
 
 	}
